@@ -33,50 +33,64 @@ K_TAIL2 = "replicate:aggregator-mentions-replicated-ref-with-two-paths"
 
 
 def S(names, stages=(0,), reps=("none", "n2"), aggs=(True, False), spell=("rel", "abs"), paths=("",), methods=("ref",),
-      styles=("same",), orders=("fwd",), comps=3, refs=2, fixed=False, graph=1, priv=(0,), aggvar=(False,), sv0=(0,), sv1=(2,)):
+      styles=("same",), orders=("fwd",), comps=3, refs=2, fixed=False, graph=1, priv=(0,), aggvar=(False,), sv0=(0,), sv1=(2,), same=1):
     """graph: 1 = every case also through graphFromFlowIR, k = every k-th case"""
     return dict(names=names, stages=stages, reps=reps, aggs=aggs, spell=spell, paths=paths, methods=methods, styles=styles,
-                orders=orders, comps=comps, refs=refs, fixed=fixed, graph=graph, priv=priv, aggvar=aggvar, sv0=sv0, sv1=sv1)
+                orders=orders, comps=comps, refs=refs, fixed=fixed, graph=graph, priv=priv, aggvar=aggvar, sv0=sv0, sv1=sv1, same=same)
 
 
 SLICES = {
     "quick": {
-        "suffix": S(["a", "ba", "ab"], graph=2),
-        "digit": S(["a", "a0", "a1"], graph=2),
+        "suffix": S(["a", "ba", "ab"], graph=4),
+        "digit": S(["a", "a0", "a1"], graph=4),
         "misc": S(["x.y", "a-b", "c"], spell=("rel",), graph=2),
         "stages": S(["a", "c"], stages=(0, 1), graph=4),
-        "shape": S(["p", "q", "r"], reps=("none", "n1", "n2", "n3"), spell=("rel",), orders=("fwd", "rev"), fixed=True, graph=1),
+        "shape": S(["p", "q", "r"], reps=("none", "n1", "n2", "n3"), spell=("rel",), orders=("fwd", "rev"), fixed=True, graph=2),
         "many": S(["p", "q"], reps=("none", "n11"), comps=2, fixed=True),
         "vars": S(["p", "q"], stages=(0, 1), reps=ALL_REPS, spell=("abs",), comps=2, fixed=True),
         # variable scoping: the count / the aggregate flag through a variable that the own and the OTHER stage and SIBLING
         # components (same and other stage) define with other values; both roles for both names, both document orders
         "scopes": S(["p", "q"], stages=(0, 1), reps=("none", "vg", "vs", "vc"), spell=("abs",), comps=2, refs=1, fixed=True,
-                    priv=(0, 1), aggvar=(False, True), sv0=(0, 1), sv1=(0, 2), orders=("fwd", "rev")),
+                    priv=(0, 1), aggvar=(False, True), sv0=(0, 1), sv1=(0, 2), orders=("fwd", "rev"), graph=4),
         "scopes3": S(["p", "q", "r"], stages=(0,), reps=("none", "vg", "vs"), aggs=(False,), spell=("rel",), refs=1, fixed=True,
-                     priv=(0, 1, 3), sv0=(0, 1), orders=("fwd", "rev"), graph=4),
+                     priv=(0, 3), sv0=(0, 1), orders=("fwd", "rev"), graph=8),
+        # several references of one consumer to the SAME producer (other file / method / spelling), alone and mixed with
+        # references to another producer; replicated, aggregating and plain consumers
+        "multi2": S(["p", "q"], stages=(0, 1), paths=("", "out.txt"), methods=("ref", "copy"), styles=("same", "tail"), comps=2,
+                    fixed=True, same=2),
+        "multi3p": S(["p", "q", "r"], spell=("rel",), paths=("", "out.txt"), refs=3, fixed=True, same=2, graph=4),
+        "multi3m": S(["p", "q", "r"], spell=("rel",), methods=("ref", "copy"), refs=3, fixed=True, same=2, graph=4),
+        "multi3s": S(["p", "q", "r"], refs=3, fixed=True, same=2, graph=4),
         "refs": S(["p", "q"], paths=("", "out.txt", "d/f.x"), methods=("ref", "copy", "output"),
                   styles=("same", "flip", "tail", "tail2"), comps=2, refs=1, fixed=True),
     },
     "thorough": {
-        "suffix": S(["a", "ba", "ab", "c"], graph=8),
-        "digit": S(["a", "a0", "a1", "a2"], reps=("none", "n3"), graph=8),
-        "misc": S(["x.y", "a-b", "a.b", "c"], graph=8),
+        "suffix": S(["a", "ba", "ab", "c"], graph=16),
+        "digit": S(["a", "a0", "a1", "a2"], reps=("none", "n3"), graph=16),
+        "misc": S(["x.y", "a-b", "a.b", "c"], graph=16),
         "stages": S(["a", "c"], stages=(0, 1), reps=("none", "n2", "vs"), aggs=(False,), graph=8),
         "stages2": S(["a", "c"], stages=(0, 1), graph=8),
         "shape": S(["p", "q", "r", "s"], reps=("none", "n2"), spell=("rel",), orders=("fwd", "rev"), comps=4, fixed=True, graph=8),
         "shape3": S(["p", "q", "r"], reps=("none", "n1", "n2", "n3"), spell=("rel", "abs"), orders=("fwd", "rev"), fixed=True,
-                    styles=("same", "flip"), graph=8),
+                    styles=("same", "flip"), graph=16),
         "vars": S(["p", "q", "r"], stages=(0, 1), reps=ALL_REPS, aggs=(False,), spell=("abs",), comps=3, refs=1, fixed=True,
                   graph=4),
         "vars2": S(["p", "q"], stages=(0, 1), reps=ALL_REPS, spell=("abs",), comps=2, fixed=True),
         "refs": S(["p", "q"], paths=("", "out.txt", "d/f.x"), methods=("ref", "copy", "output", "link", "extract"),
                   styles=("same", "flip", "tail", "tail2"), comps=2, refs=1, fixed=True),
         "many": S(["p", "q", "r"], reps=("none", "n11"), comps=3, spell=("rel",), fixed=True, graph=4),
-        "refs3": S(["a", "ba", "c"], paths=("", "out.txt"), styles=("same", "tail"), spell=("rel",), graph=8),
+        "multi2": S(["p", "q"], stages=(0, 1), paths=("", "out.txt", "d/f.x"), methods=("ref", "copy"), comps=2, refs=3,
+                    fixed=True, same=3, graph=2),
+        "multi2t": S(["p", "q"], stages=(0, 1), paths=("", "out.txt"), methods=("ref", "copy"), styles=("same", "tail"), comps=2,
+                     fixed=True, same=2),
+        "multi3p": S(["p", "q", "r"], spell=("rel",), paths=("", "out.txt", "d/f.x"), refs=3, fixed=True, same=3, graph=16),
+        "multi3m": S(["p", "q", "r"], spell=("rel",), methods=("ref", "copy", "output"), refs=3, fixed=True, same=2, graph=16),
+        "multi3s": S(["p", "q", "r"], stages=(0, 1), refs=3, fixed=True, same=2, graph=8),
+        "refs3": S(["a", "ba", "c"], paths=("", "out.txt"), styles=("same", "tail"), spell=("rel",), graph=16),
         "scopes": S(["p", "q"], stages=(0, 1), reps=("none", "n2", "vg", "vs", "vc"), spell=("abs",), comps=2, refs=1, fixed=True,
                     priv=(0, 1, 3), aggvar=(False, True), sv0=(0, 1), sv1=(0, 2, 3), orders=("fwd", "rev"), graph=2),
         "scopes3": S(["p", "q", "r"], stages=(0, 1), reps=("none", "vg", "vs"), aggs=(False,), spell=("abs",), refs=1, fixed=True,
-                     priv=(0, 1), sv0=(0, 1), sv1=(0, 2), orders=("fwd", "rev"), graph=8),
+                     priv=(0, 1), sv0=(0, 1), sv1=(0, 2), orders=("fwd", "rev"), graph=16),
     },
 }
 
@@ -99,12 +113,12 @@ def _set(xs):
 def write_cfg(path, sl, emit, invariants, spec_props=""):
     body = ("CONSTANTS\n  Names = %s\n  Stages = %s\n  RepChoices = %s\n  AggChoices = %s\n  Spellings = %s\n  Paths = %s\n"
             "  Methods = %s\n  ArgStyles = %s\n  DocOrders = %s\n  MaxComps = %d\n  MaxRefs = %d\n  FixedNames = %s\n  Emit = %s\n"
-            "  PrivChoices = %s\n  AggVarChoices = %s\n  StageVals0 = %s\n  StageVals1 = %s\n"
+            "  PrivChoices = %s\n  AggVarChoices = %s\n  StageVals0 = %s\n  StageVals1 = %s\n  MaxSame = %d\n"
             "SPECIFICATION Spec\n%sCHECK_DEADLOCK FALSE\n" % (
                 _set(sl["names"]), _set(sl["stages"]), _set(sl["reps"]), _set(sl["aggs"]), _set(sl["spell"]), _set(sl["paths"]),
                 _set(sl["methods"]), _set(sl["styles"]), _set(sl["orders"]), sl["comps"], sl["refs"],
                 "TRUE" if sl["fixed"] else "FALSE", "TRUE" if emit else "FALSE",
-                _set(sl["priv"]), _set(sl["aggvar"]), _set(sl["sv0"]), _set(sl["sv1"]),
+                _set(sl["priv"]), _set(sl["aggvar"]), _set(sl["sv0"]), _set(sl["sv1"]), sl["same"],
                 "".join("INVARIANT %s\n" % i for i in invariants)))
     with open(path, "w") as f:
         f.write(body)
@@ -164,6 +178,8 @@ def classify(case):
         feats.append("variable")
     if any(c.get("pv") for c in comps):
         feats.append("private-variables")
+    if any(len({r[0] for r in c["r"]}) < len(c["r"]) for c in comps):
+        feats.append("several-refs-to-one-producer")
     if any(c["g"] for c in comps):
         feats.append("aggregate")
     if any(r[2] for c in comps for r in c["r"]):
@@ -179,6 +195,8 @@ def classify(case):
 def compare(case, real, path):
     """-> list of mismatch descriptions (empty = conforms)."""
     status = case["status"]
+    if real.get("error") == "_Hang":
+        return ["%s: the code did not answer (%s)" % (path, real["msg"])]
     if "error" in real:
         if status == "ok":
             return ["%s: spec expects a successful expansion, the code raised %s: %s" % (path, real["error"], real["msg"][:300])]
@@ -369,6 +387,7 @@ def run(tier):
                         max(sl["comps"] for sl in slices.values()),
                         "arguments are compared token by token after parsing references with the harness' own parser (spelling-insensitive)",
                         "an aggregating component that also asks for replicas, replicate: 0 and DoWhile placeholders are outside the family",
+                        "an exception or a hang (60 s alarm) of the real code on a case the spec expands is reported as a VIOLATION",
                         "big slices run through graphFromFlowIR for every k-th case only (all cases run through FlowIRConcrete.replicate)",
                         "method copyout is not in the family: FlowIR.discover_reference_strings reads `p:copyout` in arguments as `p:copy` "
                         "+ `out` (alternation order of the methods), so a workflow mentioning a :copyout reference in its arguments never "
